@@ -16,12 +16,14 @@ SPEC = {
               "3": "specification re-tokenisation of Go's serialization differs from ts",
               "4": "model bytes differ from Go's Serialize but both round-trip (harmless rewrite, skipped)",
               "5": "specification tokenizer and parser.Tokenize disagree on the source text",
-              "6": "serializer model panics / does not round-trip where Go does"},
-    "theorems_for_kind": {},
+              "6": "serializer model panics / does not round-trip where Go does",
+              "7": "token list returned by parser.Tokenize is outside wf_tokens (the domain of theorem C20_roundtrip)"},
+    "theorems_for_kind": {k: "C20_roundtrip (norm (tokenize (serialize ts)) = norm ts for all wf_tokens ts), C20_bad_pairs_complete" for k in
+                          ["corpus", "pairs", "triples", "contents", "contents-random", "soup", "text", "suite"]},
     "rule": "one SplitMix64 seed; Go-side search over all adjacent token pairs / triples (kind x spelling, exhaustive), identifier/string/url/unit contents over all code-point classes (exhaustive to length 2-3, random to 9), nested soups, random text, the css-parsing-tests inputs and their single-rune deletions (1.7 M inputs, every Go round-trip failure is a case); a seeded reservoir sample of the passing inputs is evaluated by the Coq model; non-trivial = at least two tokens or a serialization different from the source; distinct by (mode, source)",
 }
 MANIFEST = {
-    "text": "Coq theorems over an executable model of css/parser/serialize.go and a specification-level CSS Syntax 3 tokenizer (round trip of identifiers, names, strings, urls, numbers, dimensions; completeness of the separator table), tied on every run: Go's own Tokenize(Serialize(ts)) round trip on ~1.7 M generated inputs, model bytes = Serialize bytes and specification tokenizer = parser.Tokenize on a sample, inside Coq (vm_compute)",
-    "note": "Trusted: Coq kernel (vm_compute), Go harness + hook css/parser/verif_export_c20.go, UTF-8 codec. See notes/C20.md for which theorems are full and which are partial.",
+    "text": "Coq theorems, all inputs: for every source text whose tokenisation has no parse-error token, the serializer model returns and its output tokenizes back to the same component values up to comments/positions (C20_roundtrip_source; C20_roundtrip over all well-formed token lists; C20_bad_pairs_complete: the separator logic is complete for all adjacent tokens; per-consumer round trips), over an executable model of css/parser/serialize.go and a specification-level CSS Syntax 3 tokenizer; both are tied to /repo on every run: Go's own Tokenize(Serialize(ts)) round trip on ~1.7 M generated inputs, model bytes = Serialize bytes and specification tokenizer = parser.Tokenize on a sample, evaluated inside Coq (vm_compute)",
+    "note": "Trusted: Coq kernel (vm_compute), Go harness + hook css/parser/verif_export_c20.go, UTF-8 codec (model strings are code points), the hand-ported bad-pairs table (tied by the exhaustive pairs stream). Not modelled: Serialize of lists containing parse-error tokens (outside the quantifier), float32 values.",
     "technique": "Coq proof over executable model + vm_compute correspondence with the Go implementation",
 }
